@@ -109,6 +109,11 @@ def mklens(i, rng, gm, force_type=None):
         kw["lambda_mst_distribution"] = "NONE" if gm.get("lambda_mst_distribution") == "GAUSSIAN" else "GAUSSIAN"
     if rng.random() < 0.15 and gm.get("anisotropy_sampling"):
         kw["anisotropy_distribution"] = "NONE" if gm.get("anisotropy_distribution") == "GAUSSIAN" else "GAUSSIAN"
+    # a lens that switches OFF locally (a falsy value) what the global model switches on
+    if rng.random() < 0.25:
+        for k in ("alpha_lambda_sampling", "beta_lambda_sampling", "anisotropy_sampling", "gamma_pl_global_sampling"):
+            if k == "gamma_pl_global_sampling" and "gamma_pl" in (kw.get("kin_scaling_param_list") or []): continue   # (would leave the lens without any slope)
+            if gm.get(k) and rng.random() < 0.5: kw[k] = False
     return kw, scal
 
 
@@ -362,6 +367,19 @@ def run_sample(rec, case):
             clause("sigma_v_sys_on_non_kin", kwargs_kin=dict(kk, sigma_v_sys_error=0.2))
         elif not sys_inc[i]:
             clause("sigma_v_sys_without_include", kwargs_kin=dict(kk, sigma_v_sys_error=0.31))
+
+    # ---- non-interference under scatter: the OTHER lambda population's scatter must not reach this lens (same random stream)
+    for i, l in enumerate(lenses):
+        L = S._lens_list[i]
+        other = "lambda_mst_sigma" if l.get("mst_ifu") else "lambda_ifu_sigma"
+        try:
+            np.random.seed(sd); a0 = call(L, **scat)
+            np.random.seed(sd); a1 = call(L, **dict(scat, kwargs_lens=dict(scat["kwargs_lens"], **{other: scat["kwargs_lens"][other] + 0.07})))
+        except Exception as e:
+            rec.violation("C07:interference:other_population_scatter", "raised %r" % (e,), dict(inp, lens=i, changed=other)); continue
+        rec.check(a0 == a1, "C07:interference:other_population_scatter",
+                  "the scatter of the lambda population this lens does NOT belong to changes its term (same random stream)",
+                  dict(inp, lens=i, type=l["likelihood_type"], mst_ifu=bool(l.get("mst_ifu")), changed=other, np_seed=sd), a1, a0)
 
     # ---- number of data points
     try:
